@@ -12,7 +12,7 @@ case "$ID" in
   *) exit 0 ;;
 esac
 ROOT="$(cd "$(dirname "$0")/.." && pwd)"
-RUNS="${VERIF_FUZZ_RUNS:-1500000}"
+RUNS="${VERIF_FUZZ_RUNS:-120000}"
 SEED="${VERIF_SEED:-20260925}"
 [ "$SEED" = "0" ] && SEED=1
 cd "$ROOT/harness" || exit 2
